@@ -375,6 +375,7 @@ package dkg
 //@   call ContainsAll#0: after [C08,C09:successful-lookup-means-remaining-and-leaving-are-recorded-members] result ==> namesRecordedMembers(terms.Remaining, currentState.FinalGroup.Nodes) && namesRecordedMembers(terms.Leaving, currentState.FinalGroup.Nodes)
 //@   call ContainsAll#1: assert [C08,C09:positions-after-the-remaining-members-hold-the-leaving-members] forall m int :: len(terms.Remaining) <= m && m < len(arg0) ==> arg0[m] == terms.Leaving[m - len(terms.Remaining)]
 //@   call ContainsAll#1: assert [C08,C09:every-position-of-the-looked-up-list-is-a-remaining-or-leaving-member] forall m int :: 0 <= m && m < len(arg0) ==> arg0[m].Address == ite(m < len(terms.Remaining), terms.Remaining[m].Address, terms.Leaving[m - len(terms.Remaining)].Address)
+//@   call ContainsAll#1: after [C08,C09:successful-reverse-lookup-finds-every-recorded-address-in-the-looked-up-list] result ==> (forall k int :: 0 <= k && k < len(currentState.FinalGroup.Nodes) ==> (exists m int :: 0 <= m && m < len(arg0) && arg0[m].Address == currentState.FinalGroup.Nodes[k].Identity.Addr))
 //@   call ContainsAll#1: after [C08,C09:successful-reverse-lookup-means-nobody-is-left-out] result ==> everyMemberNamed(terms, currentState.FinalGroup.Nodes)
 //@   call keysMatchLastEpoch#0: after [C09:matching-remaining-keys-are-the-recorded-keys] result ==> carriesRecordedKeys(terms.Remaining, currentState.FinalGroup.Nodes)
 //@   call keysMatchLastEpoch#1: after [C09:matching-leaving-keys-are-the-recorded-keys] result ==> carriesRecordedKeys(terms.Leaving, currentState.FinalGroup.Nodes)
@@ -534,3 +535,10 @@ package dkg
 //@   ensures [C08:Proposing-keeps-the-genesis-seed-of-the-current-record] err == nil ==> res.GenesisSeed == d.GenesisSeed && res.Threshold == terms.Threshold && res.FinalGroup == nil && res.KeyShare == nil
 //@   ensures [C08:Proposing-error-returns-nothing] err != nil ==> res == nil
 //@   ensures [C08:Proposing-leaves-the-current-record-alone] sameRecord(d)
+
+// ---- C14: the echo broadcast never waits for a slow peer while it holds its lock -------------------------------------------
+// sendPacket is called under the echo broadcast's mutex for every peer: it must hand the packet to the peer's queue or
+// drop it, never wait (a full queue of one unreachable peer would otherwise wedge every later broadcast request).
+//@ func (*sender).sendPacket(s, ctx, p)
+//@   props C14
+//@   flags nonblocking
